@@ -1052,6 +1052,37 @@ func (g *c11Gen) caseSizes(sizes []int) {
 	g.observeAll()
 }
 
+// caseTypesRestart: one completed job per result type (elements, count, render, path, selection,
+// aggregation), a restart, and every job must still be listed, complete, readable and resumable.
+func (g *c11Gen) caseTypesRestart() {
+	r := g.r.Rng
+	g.reset(c11Named("A", c01Graph(r, 1)), c11Named("B", c01Graph(r, 2)))
+	seen := map[string]bool{}
+	for _, fin := range c11Finals {
+		if seen[fin] {
+			continue
+		}
+		seen[fin] = true
+		for try := 0; try < 5; try++ {
+			q := c11Program(r, 3+r.Intn(3), fin)
+			if c11Hazard(q) {
+				continue
+			}
+			if g.submit("A", q) >= 0 {
+				g.r.Count("types-restart:" + fin)
+				break
+			}
+		}
+	}
+	g.do(map[string]interface{}{"op": "restart"})
+	g.observeAll()
+	for k := range g.jobs {
+		g.resume(k, []c11Stmt{{"limit": 3}})
+	}
+	g.do(map[string]interface{}{"op": "restart"})
+	g.observeAll()
+}
+
 func c11GenMain(r *Run) {
 	base, _ := filepath.Abs(ScratchDir("c11"))
 	defer os.RemoveAll(base)
@@ -1074,6 +1105,7 @@ func c11GenMain(r *Run) {
 	g.caseSizes(sizes)
 
 	g.caseMarkTypes()
+	g.caseTypesRestart()
 
 	// 2. every split point of generated traversals, every result type
 	nsplit := 6
